@@ -1367,6 +1367,11 @@ func oracleFor(reps int) func(Case, *h.Obs) *h.Fail {
 		src := source(c)
 		o.Key = fmt.Sprintf("%s\n// GOMAXPROCS %v", src, c.Procs)
 		o.Note = o.Key
+		if hangSeen["pipeline"] && !ctxRef.InReplay() {
+			// a hanging case costs a minute: once one was reported, this process runs no further pipelines
+			o.Excluded = "a run that does not finish was already reported by this process"
+			return nil
+		}
 		classify(c, kinds, o)
 		exp := expect(c)
 		total := 0
@@ -1391,6 +1396,8 @@ func oracleFor(reps int) func(Case, *h.Obs) *h.Fail {
 								again = "that run finished"
 							}
 							fail = h.Failf("C16|stuck|"+c.Variant, "the run did not finish: %s (GOMAXPROCS=%d, repetition %d); re-run alone with 5x the bound: %s\nsource:\n%s", describeStuck(first), procs, rep, again, src)
+							fail.NoShrink = true // every re-execution of a hanging case costs up to a minute
+							hangSeen["pipeline"] = true
 							return
 						}
 						o.Class("stuck_not_reproduced")
@@ -1419,9 +1426,14 @@ func describeStuck(kind string) string {
 	return "the deadline passed"
 }
 
+// hangSeen: a sub-check of this process has reported a run that does not finish (see the oracles).
+var hangSeen = map[string]bool{}
+var ctxRef *h.Ctx
+
 func TestC16(t *testing.T) {
 	c := h.New(t, "C16")
 	defer c.Finish()
+	ctxRef = c
 	reps := 3
 	if c.Thorough() {
 		reps = 20
